@@ -34,6 +34,12 @@ int main(int argc, char **argv)
   ctx.outdir = arg(argc, argv, "--out", ".");
   ctx.seed = strtoull(arg(argc, argv, "--seed", "1").c_str(), NULL, 10);
   ctx.mode = arg(argc, argv, "--mode", "");
+  ctx.budget_s = atof(arg(argc, argv, "--budget", "0").c_str());
+  {
+    struct timespec tb;
+    clock_gettime(CLOCK_MONOTONIC, &tb);
+    ctx.t_start = tb.tv_sec + tb.tv_nsec / 1e9;
+  }
   load_known(arg(argc, argv, "--known", "/verif/KNOWN_FINDINGS.txt"));
   if (flag(argc, argv, "--list"))
   {
@@ -127,6 +133,11 @@ int main(int argc, char **argv)
     Verdict lastfail;
     Case lastcase;
     bool r = rc::check(p->id, [&] {
+      if (ctx.over_budget())
+      {
+        ctx.stats.info["budget_exhausted"] = "generation cut short by the wall-clock budget";
+        return; // inconclusive for the remaining cases, never a violation
+      }
       Case c = p->gen();
       set_current(c);
       Verdict v = p->run(c);
